@@ -348,7 +348,7 @@ theorem orank_rawLoginGot (s : HState) (seed i : Nat) (d : Option (List Nat)) :
     orank (rawLoginGot s seed i d) ≤ 116 + (4 - i) := by
   unfold rawLoginGot
   split
-  · have := orank_rawLoginHead s [] seed (i + 1); omega
+  · exact Nat.le_trans (orank_rawLoginHead _ _ _ _) (by omega)
   · simp only
     split
     · exact Nat.le_trans (orank_rawRet _ _ _) (by omega)
@@ -644,5 +644,54 @@ theorem hsRun_terminates (inps : List CInput) : ∀ (s : HState), posRank s.pos 
         omega
     · rw [List.countP_cons_of_neg hi] at h
       exact Nat.le_trans (hstep_mono s i) h
+
+/-! ### no residue of earlier replies -/
+
+theorem hsWaitRound_residue_free (s : HState) (x : List Nat) (c1 bl : Nat) (w : WaitIn) :
+    hsWaitRound { s with inb := x } c1 bl w = hsWaitRound s c1 bl w := by
+  unfold hsWaitRound
+  cases w <;> rfl
+
+theorem rawLoginGot_residue_free (s : HState) (x : List Nat) (seed i : Nat) (d : Option (List Nat)) :
+    rawLoginGot { s with inb := x } seed i d = rawLoginGot s seed i d := by
+  unfold rawLoginGot
+  cases d <;> rfl
+
+/-- While the handshake runs, a step does not depend on what is in `in[]` when the `select` returns: whatever earlier
+replies (fitting or ignored) wrote there, the step is the same — state, events, next `select`. -/
+theorem hstep_residue_free (s : HState) (x : List Nat) (inp : CInput) (hp : s.pos ≠ none) :
+    hstep { s with inb := x } inp = hstep s inp := by
+  obtain ⟨c, pos, inb, args, pw, dev⟩ := s
+  cases pos with
+  | none => exact absurd rfl hp
+  | some p =>
+    simp only [hstep]
+    unfold hstepAt
+    cases p.rawLogin? with
+    | some si => exact rawLoginGot_residue_free ⟨(fire c p.sel inp).1, some p, inb, args, pw, dev⟩ x si.1 si.2 _
+    | none =>
+      simp only
+      rw [← hsWaitRound_residue_free ⟨(fire c p.sel inp).1, some p, inb, args, pw, dev⟩ x]
+
+/-- … and it depends on a reply only through the return value of `read_dns_withq`, the id, the first character of the
+question, the RCODE and the first `min(read, buflen)` decoded bytes. -/
+theorem hstep_reply_prefix (s : HState) (p : HPos) (hp : s.pos = some p) (q q' : Rq)
+    (hrv : q.rv = q'.rv) (hid : q.id = q'.id) (hrc : q.rcode = q'.rcode) (hn : q.name0 = q'.name0)
+    (hbuf : q.buf.take (min q.rv.toNat p.wait.2.2) = q'.buf.take (min q.rv.toNat p.wait.2.2)) :
+    hstep s (.rq q) = hstep s (.rq q') := by
+  obtain ⟨c, pos, inb, args, pw, dev⟩ := s
+  simp only at hp
+  subst hp
+  simp only [hstep, fire]
+  unfold hstepAt
+  cases p.rawLogin? with
+  | some si => rfl
+  | none =>
+    simp only [hsWaitIn]
+    have : hsWaitRound ⟨c, some p, inb, args, pw, dev⟩ p.wait.1 p.wait.2.2 (.ans q) =
+        hsWaitRound ⟨c, some p, inb, args, pw, dev⟩ p.wait.1 p.wait.2.2 (.ans q') := by
+      unfold hsWaitRound
+      simp only [← hrv, ← hid, ← hrc, ← hn, hbuf]
+    rw [this]
 
 end Iodine.Client
